@@ -145,6 +145,8 @@ pub fn escape(state: &mut State, v: &Value) -> Result<Value, Error> {
     if v.is_safe() {
         return Ok(v.clone());
     }
+    // escaping prints the value
+    ok!(state.undefined_behavior().assert_value_not_undefined(v));
 
     // this tries to use the escaping flag of the current scope, then
     // of the initial state and if that is also not set it falls back
@@ -515,6 +517,7 @@ mod builtins {
         }
 
         let joiner_str = joiner.as_ref().map(StringInput::as_str).unwrap_or_default();
+        ok!(state.undefined_behavior().assert_value_not_undefined(value));
         let iter = ok!(value.try_iter().map_err(|err| {
             Error::new(
                 ErrorKind::InvalidOperation,
@@ -1653,7 +1656,15 @@ mod builtins {
     /// the "CA" group will have two values.  This can be disabled by passing
     /// `case_sensitive=True`.
     #[cfg_attr(docsrs, doc(cfg(feature = "builtins")))]
-    pub fn groupby(value: Value, attribute: Option<&str>, kwargs: Kwargs) -> Result<Value, Error> {
+    pub fn groupby(
+        state: &State,
+        value: Value,
+        attribute: Option<&str>,
+        kwargs: Kwargs,
+    ) -> Result<Value, Error> {
+        ok!(state
+            .undefined_behavior()
+            .assert_value_not_undefined(&value));
         let default = ok!(kwargs.get::<Option<Value>>("default")).unwrap_or_default();
         let case_sensitive = ok!(kwargs.get::<Option<bool>>("case_sensitive")).unwrap_or(false);
         let attr = match attribute {
@@ -1813,10 +1824,16 @@ mod builtins {
     /// ```
     #[cfg_attr(docsrs, doc(cfg(feature = "builtins")))]
     pub fn chain(
-        _state: &State,
+        state: &State,
         value: Value,
         others: crate::value::Rest<Value>,
     ) -> Result<Value, Error> {
+        // chaining iterates all of its operands
+        for operand in Some(&value).into_iter().chain(others.0.iter()) {
+            ok!(state
+                .undefined_behavior()
+                .assert_value_not_undefined(operand));
+        }
         let all_values = Some(value.clone())
             .into_iter()
             .chain(others.0.iter().cloned())
@@ -1856,8 +1873,13 @@ mod builtins {
     /// -> [(1, 'a', 'x'), (2, 'b', 'y')]
     /// ```
     #[cfg_attr(docsrs, doc(cfg(feature = "builtins")))]
-    pub fn zip(_state: &State, value: Value, others: Rest<Value>) -> Result<Value, Error> {
+    pub fn zip(state: &State, value: Value, others: Rest<Value>) -> Result<Value, Error> {
         let all_values = Some(value).into_iter().chain(others.0).collect::<Vec<_>>();
+        for operand in &all_values {
+            ok!(state
+                .undefined_behavior()
+                .assert_value_not_undefined(operand));
+        }
 
         // Validate all values are iterable and calculate minimum length
         let mut known_len: Option<usize> = None;
